@@ -27,8 +27,9 @@ RULE = ('schedules of the UNMODIFIED batch processors with concurrent ForceFlush
         'Shutdown callers and the destructor, exporters whose Export / ForceFlush / Shutdown report failure, timer expiry and '
         'spurious wake-ups as schedule actions; every run is drained to quiescence under a step budget (termination). The trace '
         'is abstracted to protocol events and replayed on the Lean model. non-trivial = at least two threads act')
-TRUSTED = ['the scheduler shim', 'props/batchcommon.py::abstract', 'fairness (termination is "never stuck" + drained runs)']
-ASSUMPTIONS = ['sequential consistency', 'provider / multi-processor fan-out: see the fan sub-check when present; periodic reader: flush completeness is partial (D17: a collection cancelled by export_timeout skips Export but the ticket is still published)']
+TRUSTED = ['the scheduler shim', 'props/batchcommon.py::abstract',
+           'scheduling fairness for the worker / collect thread and expiry of timed waits (the progress theorems count that thread\'s transitions; every run of the correspondence is also drained to quiescence under a step budget)']
+ASSUMPTIONS = ['sequential consistency', 'periodic reader: flush completeness is partial (D17: a collection cancelled by export_timeout skips Export but the ticket is still published)']
 
 
 def corpus():
